@@ -3,7 +3,7 @@ from __future__ import annotations
 
 from hypothesis import strategies as st
 
-from ..core import Failure, drive
+from ..core import Failure, drive, drive_enum
 from ..gen import render as RD
 
 ID = "C10"
@@ -17,10 +17,12 @@ LEVEL_TEXT = (
     "single/double/no quotes, LF/CRLF). Parser().parse must return exactly the generating AST (order, names, int vs "
     "float kind and exact value, string content, list nesting, tuple maps), the canonical and the decorated rendering "
     "must parse to equal trees, and each single-token corruption that is outside the grammar by construction must "
-    "raise SyntaxError and nothing else. Sampled, not exhaustive."
+    "raise SyntaxError and nothing else. Sampled, not exhaustive. A small enumerated part puts literals at the edge of the "
+    "token rules (numerals of 4299-6000 digits; quoted strings with undecodable escapes) in scalar, list and tuple "
+    "positions: an integer or a syntax error, resp. a syntax error or the literal content -- never another kind of value."
 )
 LEVEL_NOTE = (
-    "Excluded by construction (docs and pinned tests disagree or are silent): lone backslashes and raw line breaks inside "
+    "Excluded by construction (docs and pinned tests disagree or are silent): lone backslashes inside "
     "quotes, exponent-only numerals such as 1e5, True/False as identifiers, colons inside list elements. Unquoted strings "
     "made of several tokens are a recorded finding (known_findings.json) and only that signature is suppressed."
 )
@@ -243,7 +245,55 @@ def check_corruption(case, rec):
     return [Failure("corruption:%s|accepted" % case["kind"], "%r parsed to %r" % (text[:300], RD.parsed_program(tree)))]
 
 
-PARTS = {"roundtrip": check_roundtrip, "corruption": check_corruption}
+# ------------------------------------------------------------------------------------ literals at the edge of the token rules
+
+BAD_ESCAPES = ["\\x", "\\xZ1", "a\\x4", "\\u12", "\\u12G4", "\\U0011", "\\U99999999", "\\N{no such name}", "\\N", "ok\\x4g tail"]
+HUGE_DIGITS = [4299, 4300, 4301, 6000]
+
+
+def edge_cases():
+    for where in ("scalar", "list_item", "tuple_value"):
+        for body in BAD_ESCAPES:
+            for q in ('"', "'"):
+                yield {"edge": "bad_escape", "where": where, "body": body, "q": q}
+        for n in HUGE_DIGITS:
+            for sign in ("", "-", "+"):
+                yield {"edge": "huge_int", "where": where, "digits": n, "sign": sign}
+
+
+def check_edge(case, rec):
+    """A numeral with thousands of digits is an integer (or refused as a syntax error where the interpreter cannot convert
+    it) -- never a value of another kind; a quoted string with an escape sequence that cannot be decoded is refused (or, for a
+    lenient reader, kept literally) -- never delivered with its quotes or as a non-string."""
+    if case["edge"] == "huge_int":
+        lit = case["sign"] + "1" + "0" * (case["digits"] - 2) + "7"
+        want = (10 ** (case["digits"] - 1) + 7) * (-1 if case["sign"] == "-" else 1)
+    else:
+        lit = case["q"] + case["body"] + case["q"]
+        want = case["body"]
+    text = {"scalar": "R = C(P = %s, Q = 1)", "list_item": "R = C(Q = 1,\n  P = [a, %s, 2])", "tuple_value": "R = C(P = [k: %s])"}[case["where"]] % lit
+    rec.label("edge:%s:%s" % (case["edge"], case["where"]))
+    rec.nontrivial_case(case)
+    try:
+        tree = fresh_parser().parse(text)
+    except SyntaxError:
+        rec.label("edge_rejected:" + case["edge"])
+        return []
+    except Exception as exc:
+        return [Failure("edge:%s|raises:%s" % (case["edge"], type(exc).__name__), "%r -> %r" % (text[:80], exc))]
+    args = dict(RD.parsed_program(tree)[0][2])
+    got = args.get("P")
+    got = got[1] if case["where"] == "list_item" and isinstance(got, list) and len(got) == 3 else got
+    got = got.get("k") if case["where"] == "tuple_value" and isinstance(got, dict) else got
+    if type(got) is not type(want) or got != want:
+        shown = repr(got)
+        return [Failure("edge:%s|delivered_as:%s" % (case["edge"], type(got).__name__),
+                        "%s... parsed to %s" % (text[:60], shown[:60] + ("..." if len(shown) > 60 else "")))]
+    rec.label("edge_accepted:" + case["edge"])
+    return []
+
+
+PARTS = {"roundtrip": check_roundtrip, "corruption": check_corruption, "edge": check_edge}
 
 
 def corruption_cases():
@@ -316,5 +366,6 @@ def run_atheris(ctx, rec, runs):
 def run_shard(ctx, rec):
     drive(ctx, rec, "roundtrip", RD.programs(), check_roundtrip, ctx.n(3000, 80000), max_novel=8)
     drive(ctx, rec, "corruption", corruption_cases(), check_corruption, ctx.n(1500, 30000))
+    drive_enum(ctx, rec, "edge", edge_cases(), check_edge, exhaustive=True)
     if ctx.shard < (1 if ctx.quick else 8):
         run_atheris(ctx, rec, 1000 if ctx.quick else 60000)
